@@ -273,6 +273,7 @@ type execRun struct {
 	inflight, maxInfl int
 	ctxBad            int
 	elemOrd           [64]int // started element calls per collection
+	nextEm            int
 	sharedErr         *userErr
 	propErr           [64]error // per task: the annotated error of the directive nested in it, if that failed
 	lastErr           error     // what the directive returned (set when the call returns, before the harness's bookkeeping step)
@@ -732,6 +733,18 @@ func (h *hh) Bool(k int) bool { return h.x.d.Bools[k&1] }
 func (h *hh) Emitter(k int) cff.Emitter { return &recEmitter{x: h.x, k: k} }
 
 func (h *hh) SharedEmitter() cff.Emitter { return h.x.r.shared }
+
+func (h *hh) NextEmitter() cff.Emitter { return &recEmitter{x: h.x, k: h.x.takeEmitter()} }
+
+//go:norace
+func (x *execRun) takeEmitter() int {
+	k := x.nextEm
+	x.nextEm++
+	if k > 2 {
+		k = 2
+	}
+	return k
+}
 
 func (h *hh) EmitterSlice() []cff.Emitter { return h.x.r.slice }
 
